@@ -22,10 +22,13 @@ Definition seq32 (c : conn) : N := u32 (c_seqno c).
 Definition max_step (m : N) (c : conn) : N := if (m <? seq32 c)%N then seq32 c else m.
 Definition max_seqno (cs : list conn) : N := fold_left max_step cs 0%N.
 
-(** The literal Go test [c.MasterHead().Seqno+1 >= maxSeqno] in uint32 arithmetic:
-    the addition wraps to 0 at seqno = 2^32-1. *)
-Definition current_go (maxs : N) (c : conn) : bool := (maxs <=? u32 (seq32 c + 1))%N.
-(** [if !c.IsOK() { continue }; if c.MasterHead().Seqno+1 < maxSeqno { continue }] *)
+(** The Go test [uint64(c.MasterHead().Seqno)+1 >= uint64(maxSeqno)]: the addition is
+    done in 64 bits, so it cannot wrap (seqno+1 <= 2^32).  (Before the repair the
+    addition was done in uint32 and wrapped to 0 at 2^32-1: Proofs/PoolHistory.v.)
+    The comparison is monotone in the connection's seqno, so a head that advances
+    between updateBest's two passes over the connections keeps the connection current. *)
+Definition current_go (maxs : N) (c : conn) : bool := (maxs <=? seq32 c + 1)%N.
+(** [if !c.IsOK() { continue }; if uint64(c.MasterHead().Seqno)+1 < uint64(maxSeqno) { continue }] *)
 Definition usable_go (maxs : N) (c : conn) : bool := c_alive c && current_go maxs c.
 
 (** findFirstWorkingConnection: index of the first usable connection *)
@@ -89,9 +92,3 @@ Definition is_choice (st : strategy) (P : conn -> Prop) (cs : list conn)
          | _ => i <= j
          end)
   end.
-
-(** the one class of configurations on which the literal code departs from the
-    property: an alive connection whose head is 2^32-1 *)
-Definition wrap_seqno : N := 4294967295.
-Definition no_alive_at_wrap (cs : list conn) : Prop :=
-  forall c, In c cs -> c_alive c = true -> seq32 c <> wrap_seqno.
